@@ -10,8 +10,10 @@ from ..engine import viol
 LEVEL = "exploration"
 TECHNIQUE = "generated panel of problems from the stated family (Hypothesis draws one sub-seed per problem; the problem is a pure function of it), per-run hard clause plus panel statistics against the statement's own thresholds"
 RULE = ("Panel of random rotated quadratics exactly as in the statement: D in 1..5, A = Q diag(lam) Q^T with log-uniform eigenvalues in "
-        "[1,100] and a Haar-random rotation, minimiser uniform in [-4,4]^D, plausible box [-5,5]^D inside the hard box "
-        "[-20,20]^D, x0 uniform in the plausible box, default options, generated random_seed; 64 problems quick, 320 thorough; "
+        "[1,100] and a Haar-random rotation, minimiser uniform in [-4,4]^D, x0 uniform in the plausible box, default options, "
+        "generated random_seed; box geometry: half the panel plausible [-5,5]^D inside hard [-20,20]^D, a quarter with no hard "
+        "bounds, a quarter with a ten times wider plausible/hard box (the statement only requires the minimiser inside the "
+        "plausible box); 64 problems quick, 320 thorough; "
         "a pure function of VERIF_SEED. Per run (hard): f(result.x) <= f(first evaluated point). Panel: >= 90% of runs within "
         "1e-3 of the minimum; median over the panel of (evaluations until the running best first drops below f*+1e-2)/D <= 40. "
         "Non-trivial = problem with D >= 2 and condition number >= 10; distinct by problem digest.")
@@ -23,7 +25,9 @@ ASSUMPTIONS = [
 N = {"quick": 64, "thorough": 320}
 
 
-def problem(subseed):
+def problem(subseed, force_variant=None):
+    if isinstance(subseed, dict):
+        subseed, force_variant = subseed["subseed"], subseed.get("variant")
     rs = np.random.RandomState(subseed)
     D = int(rs.randint(1, 6))
     lam = np.exp(rs.uniform(0, np.log(100.0), size=D))
@@ -34,7 +38,24 @@ def problem(subseed):
     A = (A + A.T) / 2
     c = rs.uniform(-4, 4, size=D)
     x0 = rs.uniform(-5, 5, size=D)
-    return dict(subseed=int(subseed), D=D, A=A.tolist(), lam=lam.tolist(), c=c.tolist(), x0=x0.tolist(), random_seed=int(rs.randint(0, 2**31 - 1)))
+    seed = int(rs.randint(0, 2**31 - 1))
+    # box geometry: the statement fixes the plausible box to contain the minimiser, not the hard bounds. Half of the panel uses
+    # the reference geometry (plausible [-5,5]^D in hard [-20,20]^D), the rest no hard bounds at all, or a ten times wider box.
+    variant = ["standard", "standard", "unbounded", "wide"][int(rs.randint(0, 4))]
+    variant = force_variant or variant
+    if variant == "wide":
+        x0 = x0 * 10.0
+    return dict(subseed=int(subseed), D=D, A=A.tolist(), lam=lam.tolist(), c=c.tolist(), x0=x0.tolist(), random_seed=seed, variant=variant)
+
+
+def boxes(p):
+    D = p["D"]
+    v = p.get("variant", "standard")
+    if v == "unbounded":
+        return None, None, np.full(D, -5.0), np.full(D, 5.0)
+    if v == "wide":
+        return np.full(D, -100.0), np.full(D, 100.0), np.full(D, -50.0), np.full(D, 50.0)
+    return np.full(D, -20.0), np.full(D, 20.0), np.full(D, -5.0), np.full(D, 5.0)
 
 
 def run_problem(p):
@@ -50,8 +71,8 @@ def run_problem(p):
         hist.append(y)
         return y
 
-    b = BB.BADS(f, np.array(p["x0"]), np.full(D, -20.0), np.full(D, 20.0), np.full(D, -5.0), np.full(D, 5.0),
-                options={"display": "off", "random_seed": p["random_seed"]})
+    lb, ub, plb, pub = boxes(p)
+    b = BB.BADS(f, np.array(p["x0"]), lb, ub, plb, pub, options={"display": "off", "random_seed": p["random_seed"]})
     r = b.optimize()
     d = np.asarray(r["x"], dtype=float).ravel() - c
     fx = float(d @ A @ d)
@@ -66,16 +87,19 @@ def body(case):
     try:
         out = run_problem(p)
     except Exception as e:  # noqa: BLE001
+        # a crashed run is C09's finding (C09 runs this same family in its "long" part); here it simply is a run that did not
+        # get within 1e-3, so it counts against the panel
         info = harness.exc_info(e)
-        return dict(violations=[viol("run:exception", f"{info['type']}: {info['msg']}", site=info["site"], exc_type=info["type"])],
-                    labels=["exception"], nontrivial=False, oracle_evals=1, sample=p, record=None)
+        return dict(violations=[], labels=["exception:" + info["type"], "variant=" + p["variant"]], nontrivial=False, oracle_evals=1, sample=p,
+                    record=dict(subseed=p["subseed"], D=p["D"], cond=max(p["lam"]) / min(p["lam"]), gap=float("inf"), per_D=None, n_evals=0,
+                                variant=p["variant"], exception=info["type"]))
     if out["fx"] > out["f_start"]:
         v.append(viol("per-run:worse-than-start", f"f(result.x)={out['fx']!r} > f(first evaluated point)={out['f_start']!r} (D={p['D']})"))
     cond = max(p["lam"]) / min(p["lam"])
     nt = p["D"] >= 2 and cond >= 10
     rec = dict(subseed=p["subseed"], D=p["D"], cond=cond, gap=out["fx"], per_D=None if out["evals_to_1e2"] is None else out["evals_to_1e2"] / p["D"],
-               n_evals=out["n_evals"])
-    return dict(violations=v, labels=[f"D={p['D']}", "within-1e-3" if out["fx"] < 1e-3 else "not-within-1e-3"] + (["nontrivial"] if nt else []),
+               n_evals=out["n_evals"], variant=p["variant"])
+    return dict(violations=v, labels=[f"D={p['D']}", "variant=" + p["variant"], "within-1e-3" if out["fx"] < 1e-3 else "not-within-1e-3"] + (["nontrivial"] if nt else []),
                 nontrivial=nt, oracle_evals=1, sample=dict(D=p["D"], cond=round(cond, 2), x0=p["x0"], c=p["c"], gap=out["fx"],
                                                            evals_to_1e2=out["evals_to_1e2"]), record=rec)
 
@@ -105,7 +129,11 @@ def finalize(agg, tier, seed):
     med = per[len(per) // 2] if len(per) % 2 else 0.5 * (per[len(per) // 2 - 1] + per[len(per) // 2])
     agg["summary"] = dict(panel=len(recs), fraction_within_1e3=frac, median_evals_to_1e2_per_D=med, worst_gap=max(r["gap"] for r in recs),
                           margin="thin" if frac < 0.94 else "comfortable",
-                          per_D_histogram={str(d): sum(1 for r in recs if r["D"] == d) for d in range(1, 6)})
+                          per_D_histogram={str(d): sum(1 for r in recs if r["D"] == d) for d in range(1, 6)},
+                          per_variant={vv: dict(n=sum(1 for r in recs if r.get("variant") == vv),
+                                                within_1e3=sum(1 for r in recs if r.get("variant") == vv and r["gap"] < 1e-3))
+                                       for vv in ("standard", "unbounded", "wide")},
+                          crashed_runs=[(r["subseed"], r.get("exception")) for r in recs if r.get("exception")])
     worst = sorted(recs, key=lambda r: -r["gap"])[:5]
     if len(recs) >= 60 and frac < 0.90:
         out.append((viol("panel:success-rate", f"only {frac:.3f} of {len(recs)} problems within 1e-3 of the minimum (worst gaps: "
